@@ -7,6 +7,9 @@ static int c_crypto_sign(A) { return crypto_sign(b[0], (ULL *) (void *) b[1], b[
 static void p_crypto_sign_open(A) { if (cm == 1) { unsigned char sk[64], *m = tmp_rand(l1), *t = (unsigned char *) malloc(l1 + 64);
     mk_sk(sk, b[3]); crypto_sign(t, NULL, m, l1, sk); vcpy(b[2], t, l1 + 64); free(t); free(m); } }
 static int c_crypto_sign_open(A) { return crypto_sign_open(b[0], (ULL *) (void *) b[1], b[2], l1 + 64, b[3]); }
+static void p_crypto_sign_open_verifyonly(A) { if (cm == 1) { unsigned char sk[64], *m = tmp_rand(l1), *t = (unsigned char *) malloc(l1 + 64);
+    mk_sk(sk, b[2]); crypto_sign(t, NULL, m, l1, sk); vcpy(b[1], t, l1 + 64); free(t); free(m); } }
+static int c_crypto_sign_open_verifyonly(A) { return crypto_sign_open(NULL, (ULL *) (void *) b[0], b[1], l1 + 64, b[2]); }
 static int c_crypto_sign_open_short(A) { return crypto_sign_open(b[0], (ULL *) (void *) b[1], b[2], l1, b[3]); }
 static void p_crypto_sign_detached(A) { if (cm == 1) mk_sk(b[3], NULL); }
 static int c_crypto_sign_detached(A) { return crypto_sign_detached(b[0], (ULL *) (void *) b[1], b[2], l1, b[3]); }
@@ -85,7 +88,7 @@ static int c_crypto_kx_client_session_keys_rxonly(A) { return crypto_kx_client_s
     E(crypto_core_##G##_scalar_add, 3), E(crypto_core_##G##_scalar_sub, 3), E(crypto_core_##G##_scalar_mul, 3), E(crypto_core_##G##_scalar_reduce, 2), \
     E(crypto_core_##G##_scalar_is_canonical, 1)
 #define FNS_CURVE \
-    E(crypto_sign_keypair, 2), E(crypto_sign_seed_keypair, 3), EP(crypto_sign, 4), EP(crypto_sign_open, 4), E(crypto_sign_open_short, 4), \
+    E(crypto_sign_keypair, 2), E(crypto_sign_seed_keypair, 3), EP(crypto_sign, 4), EP(crypto_sign_open, 4), E(crypto_sign_open_short, 4), EP(crypto_sign_open_verifyonly, 3), \
     EP(crypto_sign_detached, 4), EP(crypto_sign_verify_detached, 3), E(crypto_sign_multi_create, 5), EP(crypto_sign_multi_verify, 4), \
     EP(crypto_sign_ed25519_pk_to_curve25519, 2), E(crypto_sign_ed25519_sk_to_curve25519, 2), E(crypto_sign_ed25519_sk_to_seed, 2), E(crypto_sign_ed25519_sk_to_pk, 2), \
     EP(crypto_scalarmult, 3), E(crypto_scalarmult_base, 2), EP(crypto_scalarmult_ed25519, 3), EP(crypto_scalarmult_ed25519_noclamp, 3), EP(crypto_scalarmult_ristretto255, 3), \
